@@ -64,7 +64,9 @@ def cases(rng, tier):
         has_ch = rng.random() < 0.8
         tv = rng.choice(["right", "right", "flip", "case", "pad", "nl", "none", "nonascii", "trunc", "other_method"])
         out.append({"t": "flow", "essential": rng.random() < 0.5, "mset": rng.choice(list(METHOD_SETS)), "client": rng.choice(["client_1", "cl_ess", "cl_noess"]),
-                    "method": m, "challenge_method": m or "plain", "verifier": v, "has_challenge": has_ch, "tv": tv})
+                    "method": m, "challenge_method": m or "plain", "verifier": v, "has_challenge": has_ch, "tv": tv,
+                    # the challenge as the authorization request carries it: the transform, or an altered / padded / re-encoded one
+                    "chmut": rng.choice([None, None, None, "pad", "pad2", "trunc", "flip", "b64std", "space", "veq"])})
     for _ in range(40 * n):
         out.append({"t": "rp", "method": rng.choice(["S256", "S384", "S512"]), "len": rng.choice([43, 64, 128]), "mset": rng.choice(["all", "s256", "s384_512"]),
                     "essential": rng.random() < 0.5})
@@ -134,9 +136,14 @@ def _run(s, client, challenge, method, verifier):
 def impl(c):
     s = server(c["essential"], c["mset"])
     if c["t"] == "flow":
-        ch = hval(c["challenge_method"], c["verifier"]) if c["has_challenge"] else None
+        ver0 = c["verifier"] + "=" if c.get("chmut") == "veq" else c["verifier"]       # "veq": plain-style verifier that itself ends in '='
+        ch = hval(c["challenge_method"], ver0) if c["has_challenge"] else None
         if ch == "?":
             ch = "unknown-method-challenge"
+        cm = c.get("chmut")
+        if ch and cm:
+            ch = {"pad": ch + "=", "pad2": ch + "==", "trunc": ch[:-1], "flip": ("A" if ch[:1] != "A" else "B") + ch[1:],
+                  "b64std": ch.replace("-", "+").replace("_", "/"), "space": ch + " ", "veq": ch}[cm]
         ch = ch or None            # a blank parameter is not part of a message at all
         o = _run(s, c["client"], ch, c["method"], _token_verifier(c) or None)
         o["challenge"] = ch
